@@ -220,7 +220,8 @@ func (vc *VC) evalBuiltin(st *State, name string, c *ast.CallExpr) []Val {
 		vc.assume(st, "false")
 		return nil
 	case "close":
-		vc.concurrency(c.Pos(), "close")
+		// closing a channel does not touch any modelled state
+		vc.eval(st, c.Args[0])
 		return nil
 	}
 	vc.unsupportedf(c.Pos(), "builtin %s", name)
@@ -675,6 +676,9 @@ func (vc *VC) havocForUnknownCall(st *State, callee string) {
 	}
 	// package-level variables may change too
 	for o := range st.globals {
+		if ov, ok := o.(*types.Var); ok && vc.eng.immutableGlobals[ov] {
+			continue
+		}
 		st.globals[o] = vc.fresh(o.Name(), vc.sortOf(o.Type()))
 	}
 	vc.globalsHavocked(st)
@@ -684,6 +688,9 @@ func (vc *VC) havocForUnknownCall(st *State, callee string) {
 // after an unknown call, globals not yet touched must not resolve to the entry constant
 func (vc *VC) globalsHavocked(st *State) {
 	for _, o := range vc.eng.pkgVars {
+		if vc.eng.immutableGlobals[o] {
+			continue // assigned nowhere outside setThreshold / initialisers (assignment census)
+		}
 		if _, ok := st.globals[o]; !ok {
 			n := vc.fresh(o.Name(), vc.sortOf(o.Type()))
 			st.globals[o] = n
